@@ -40,8 +40,8 @@ class Lengths:
         # result of a local function, possibly behind `?` and a tuple component
         comp = None
         x = t
-        if x[0] == "tproj" or (x[0] == "field" and str(x[2]).isdigit()):
-            comp, x = str(x[2]), x[1]
+        if x[0] == "tproj" or x[0] == "field":
+            comp, x = str(x[2]), x[1]          # a tuple component or a named field of a struct-valued result
         if x[0] == "proj" and last(x[2]) in ("Ok", "Some") and x[3] == 0:
             x = x[1]
         if x[0] in ("call", "rec") and isinstance(x[1], str):
@@ -110,6 +110,9 @@ class Lengths:
         if v[0] == "tuple":
             for i, x in enumerate(v[1]):
                 out[str(i)] = self.lenof(x)
+        elif v[0] == "struct":
+            for fname, x in v[2]:
+                out[str(fname)] = self.lenof(x)
         else:
             # components of a tuple-valued call result
             for i in range(3):
